@@ -40,6 +40,7 @@ type Eval struct {
 	// (loop-free, side-effect-free functions of constant arguments).
 	Pure  func(f *ssa.Function) bool
 	depth int
+	rec   int // recursion depth of Val (cyclic phi chains do not fold)
 }
 
 // Wrap truncates an integer constant to the width of t.
@@ -77,6 +78,11 @@ func (e *Eval) Val(v ssa.Value) (constant.Value, bool) {
 	if c, ok := e.Env[v]; ok {
 		return c, true
 	}
+	if e.rec > 200 {
+		return nil, false
+	}
+	e.rec++
+	defer func() { e.rec-- }()
 	switch x := v.(type) {
 	case *ssa.Const:
 		if x.Value != nil {
@@ -168,29 +174,51 @@ func (e *Eval) Val(v ssa.Value) (constant.Value, bool) {
 			}
 		}
 	case *ssa.Call:
-		if e.Pure != nil && e.depth < 4 {
-			f := x.Call.StaticCallee()
-			if f != nil && f.Blocks != nil && e.Pure(f) {
-				env := Env{}
-				for i, p := range f.Params {
-					a, ok := e.Val(x.Call.Args[i])
-					if !ok {
-						return nil, false
-					}
-					env[p] = a
-				}
-				sub := &Eval{Env: env, Tables: e.Tables, Pure: e.Pure, depth: e.depth + 1}
-				exits, err := sub.Walk(f.Blocks[0], nil, nil, 1)
-				if err != nil || len(exits) != 1 || exits[0].Ret == nil || len(exits[0].Ret.Results) != 1 {
-					return nil, false
-				}
-				sub.Env = exits[0].Env
-				sub.Prev = exits[0].From
-				return sub.Val(exits[0].Ret.Results[0])
+		if r, ok := e.callResults(x); ok && len(r) == 1 {
+			return r[0], r[0] != nil
+		}
+	case *ssa.Extract:
+		if call, ok := x.Tuple.(*ssa.Call); ok {
+			if r, ok := e.callResults(call); ok && x.Index < len(r) && r[x.Index] != nil {
+				return r[x.Index], true
 			}
 		}
 	}
 	return nil, false
+}
+
+// callResults folds a call to a module function whose control flow and results
+// are determined by constant arguments alone. Side effects of the callee are
+// ignored (the evaluator only answers "which value / which exit"); anything
+// the result would need from memory makes the fold fail.
+func (e *Eval) callResults(x *ssa.Call) ([]constant.Value, bool) {
+	if e.Pure == nil || e.depth >= 4 {
+		return nil, false
+	}
+	f := x.Call.StaticCallee()
+	if f == nil || f.Blocks == nil || !e.Pure(f) {
+		return nil, false
+	}
+	env := Env{}
+	for i, p := range f.Params {
+		if a, ok := e.Val(x.Call.Args[i]); ok {
+			env[p] = a
+		}
+	}
+	sub := &Eval{Env: env, Tables: e.Tables, Pure: e.Pure, depth: e.depth + 1}
+	exits, err := sub.Walk(f.Blocks[0], nil, nil, 0)
+	if err != nil || len(exits) != 1 || exits[0].Ret == nil {
+		return nil, false
+	}
+	sub.Env = exits[0].Env
+	sub.Prev = exits[0].From
+	out := make([]constant.Value, len(exits[0].Ret.Results))
+	for i, r := range exits[0].Ret.Results {
+		if v, ok := sub.Val(r); ok {
+			out[i] = v
+		}
+	}
+	return out, true
 }
 
 // Exit is one way a walk ended.
